@@ -19,37 +19,8 @@ def first_word(s):
     return s.split(" ", 1)[0]
 
 
-KNOWN_CLASSES = [
-    "nested-variable-checked-by-named-type-only",
-    "subscription-root-fields-counted-ignoring-type-conditions",
-]
-
-
-def masks():
-    n = len(KNOWN_CLASSES)
-    singles = [tuple(i == k for i in range(n)) for k in range(n)]
-    pairs = [tuple(i in (a, b) for i in range(n)) for a in range(n) for b in range(a + 1, n)]
-    return singles + pairs + [tuple(True for _ in range(n))]
-
-
-def classify_batch(model, items, sd, dd):
-    """items: list of (case, impl verdict word).  For each, the smallest set of known-defect switches (Exec/Known.v)
-    under which the specification's verdict equals the implementation's; None if there is none."""
-    ms = masks()
-    lines = []
-    for c, iw in items:
-        for m in ms:
-            lines.append("".join("1" if b else "0" for b in m) + " " + sd[c["schema"]] + " " + dd[c["doc"]])
-    out = run_family(model, "c17_known", lines, shards=8) if lines else []
-    res = []
-    for k, (c, iw) in enumerate(items):
-        got = None
-        for j, m in enumerate(ms):
-            if first_word(out[k * len(ms) + j]) == iw:
-                got = [KNOWN_CLASSES[i] for i, b in enumerate(m) if b]
-                break
-        res.append(got)
-    return res
+# No known-finding class is left for this property (the former ones are repaired in /repo, Exec/Known.v keeps them
+# as xk_old_* definitions for the record): every disagreement is a violation.
 
 
 def correspond2(ctx, impl, model, family, cases, sd, dd):
@@ -89,14 +60,8 @@ def correspond2(ctx, impl, model, family, cases, sd, dd):
             fam["agree"] += 1
         else:
             dis.append((c, io, mo))
-    classes = classify_batch(model, [(c, first_word(io)) for c, io, mo in dis], sd, dd)
-    for (c, io, mo), cls in zip(dis, classes):
-        c["known_classes"] = cls
-        if cls and all(any(k["class"] == x for k in ctx.known) for x in cls):
-            for x in cls:
-                ctx.known_hit(x)
-            fam["known"] += 1
-            continue
+    for c, io, mo in dis:
+        c["known_classes"] = None
         ctx.disagreements += 1
         if len(ctx.violations) < 8:
             ctx.violation({
